@@ -43,22 +43,27 @@ AllWidth(outs, w) == \A p \in 1..Len(outs) : Len(outs[p]) = w
 FirstPos(rows, r) == CHOOSE p \in 1..Len(rows) : rows[p] = r /\ \A q \in 1..(p - 1) : rows[q] # r
 Extend(fn, rows, outs) ==
   [r \in (DOMAIN fn) \cup Range(rows) |-> IF r \in DOMAIN fn THEN fn[r] ELSE outs[FirstPos(rows, r)]]
-PerSample(fn, rows, outs, tol) ==
-  \A p \in 1..Len(rows) : rows[p] \in DOMAIN fn /\ MatchVec(outs[p], fn[rows[p]], tol)
+\* T(row) = tolerance (in code units) for the outputs of that row
+PerSample(fn, rows, outs, T(_)) ==
+  \A p \in 1..Len(rows) : rows[p] \in DOMAIN fn /\ MatchVec(outs[p], fn[rows[p]], T(rows[p]))
 \* every output of this call agrees with the first value ever recorded for that row (earlier call, or
 \* first occurrence inside this call)
-PerSampleOk(fn, rows, outs, tol) ==
-  Len(outs) = Len(rows) /\ PerSample(Extend(fn, rows, outs), rows, outs, tol)
+PerSampleOk(fn, rows, outs, T(_)) ==
+  Len(outs) = Len(rows) /\ PerSample(Extend(fn, rows, outs), rows, outs, T)
+
+\* A row is extreme when a cell exceeds 64 quarter units (|value| > 16). Unbounded float outputs of extreme
+\* rows are logged at 10^3 instead of 10^6 (harness rule `scale`); labels and probabilities as always.
+Extreme(row) == \E q \in 1..Len(row) : Abs(row[q]) > 64
 
 \* dataset forms hand the input records back unchanged
 RecordsBack(rows, back) == back = rows
 
 \* multi-target wrapper: column j is member j's prediction (mfn[j] = member j's recorded function)
-MTOk(mfn, m, rows, outs, tol) ==
+MTOk(mfn, m, rows, outs, T(_)) ==
   \A p \in 1..Len(rows) :
      /\ Len(outs[p]) = m
      /\ \A jj \in 1..m : /\ rows[p] \in DOMAIN mfn[jj]
-                          /\ Match(outs[p][jj], mfn[jj][rows[p]][1], tol)
+                          /\ Match(outs[p][jj], mfn[jj][rows[p]][1], T(rows[p]))
 
 \* multi-class wrapper: the label of *a* member whose probability is maximal (within slack: a near-tie is a tie)
 MCOk(mfn, m, labs, rows, outs, slack) ==
@@ -75,19 +80,37 @@ PlattValue(a4, b4, f6) == Sigmoid(-PlattZ(a4, b4, f6))
 \* quantisation of A, f, B propagated through z (slope of the sigmoid <= 1/4) + table error + rounding
 PlattSlack(a4, f6) == 4 + (Abs(a4) + Abs(f6) \div 100) \div 80000
 PlattEvaluable(a4, f6) == Abs(a4) <= 2000000 /\ Abs(f6) <= 20000000      \* keeps MulDiv inside 31 bits
+\* one row: f = inner code (10^6, or 10^3 when ext), p6 = returned probability at 10^6.
+\* A non-finite / unrepresentable inner value makes no demand. Extreme rows: inside |f| <= 20 the same
+\* closeness with the coarser quantisation of f propagated (|A| * 0.5e-3 in z, slope 1/4); beyond it, when
+\* |A| >= 1 and |B| <= 5, |z| >= 15 and the probability must be saturated on the side given by sign(A f).
+PlattRowOk(a4, b4, f, ext, p6) ==
+  IF f >= SENT THEN TRUE
+  ELSE /\ p6 >= 0 /\ p6 <= 1000000                                      \* a probability
+       /\ IF ~ext
+            THEN PlattEvaluable(a4, f) => Abs(p6 - 100 * PlattValue(a4, b4, f)) <= 100 * PlattSlack(a4, f)
+            ELSE IF Abs(f) <= 20000
+                   THEN Abs(a4) <= 2000000 =>
+                          Abs(p6 - 100 * PlattValue(a4, b4, f * 1000)) <=
+                            100 * (PlattSlack(a4, f * 1000) + Abs(a4) \div 8000 + 1)
+                   ELSE (Abs(a4) >= 10000 /\ Abs(b4) <= 50000) =>
+                          IF (a4 > 0) = (f > 0) THEN p6 <= 1 ELSE p6 >= 999999
 PlattOk(a4, b4, ifn, rows, outs) ==
   \A p \in 1..Len(rows) :
      /\ Len(outs[p]) = 1
-     /\ outs[p][1] >= 0 /\ outs[p][1] <= 1000000                         \* a probability
      /\ rows[p] \in DOMAIN ifn
-     /\ LET f6 == ifn[rows[p]][1] IN
-        /\ f6 < SENT
-        /\ PlattEvaluable(a4, f6) =>
-             Abs(outs[p][1] - 100 * PlattValue(a4, b4, f6)) <= 100 * PlattSlack(a4, f6)
+     /\ PlattRowOk(a4, b4, ifn[rows[p]][1], Extreme(rows[p]), outs[p][1])
+\* "certainly f1 < f2" for codes c1, c2 whose scales (10^3 when extreme, else 10^6) may differ
+FLess(c1, e1, c2, e2) ==
+  IF e1 = e2 THEN c1 < c2
+  ELSE IF e2 THEN (c1 \div 1000) + 1 < c2
+  ELSE c1 + 1 <= c2 \div 1000
 \* order-monotone in the inner value: A < 0 increasing, A > 0 decreasing (1 unit at 10^6 for f32 rounding)
 PlattMono(a4, wfn, ifn) ==
   \A r1 \in DOMAIN wfn, r2 \in DOMAIN wfn :
-     (r1 \in DOMAIN ifn /\ r2 \in DOMAIN ifn /\ ifn[r1][1] < SENT /\ ifn[r2][1] < SENT /\ ifn[r1][1] < ifn[r2][1]) =>
+     (/\ r1 \in DOMAIN ifn /\ r2 \in DOMAIN ifn /\ ifn[r1][1] < SENT /\ ifn[r2][1] < SENT
+      /\ wfn[r1][1] < SENT /\ wfn[r2][1] < SENT
+      /\ FLess(ifn[r1][1], Extreme(r1), ifn[r2][1], Extreme(r2))) =>
         /\ a4 < 0 => wfn[r1][1] <= wfn[r2][1] + 1
         /\ a4 > 0 => wfn[r2][1] <= wfn[r1][1] + 1
 
@@ -207,9 +230,10 @@ Spec == Init /\ [][Next]_vars
 AtRet == pc = "ret"
 W == IF kind = "mt" THEN nm ELSE 1
 InvOnePerRow == AtRet => OnePerRow(ids, buf, Len(buf)) /\ AllWidth(buf, W)
-InvPerSample == AtRet => PerSampleOk(seen, recs, buf, 0)
+Zero(r) == 0
+InvPerSample == AtRet => PerSampleOk(seen, recs, buf, Zero)
 InvBack      == (AtRet /\ HandsBack(form)) => RecordsBack(CallRows(Pool, ids), recs)
-InvMT        == (AtRet /\ kind = "mt") => MTOk(MFs, nm, recs, buf, 0)
+InvMT        == (AtRet /\ kind = "mt") => MTOk(MFs, nm, recs, buf, Zero)
 InvMC        == (AtRet /\ kind = "mc") => MCOk(MFs, nm, labels, recs, buf, 0)
 InvPlatt     == (AtRet /\ kind = "platt") =>
                   /\ PlattOk(pa, pb, DecF, recs, buf)
